@@ -47,6 +47,11 @@ const (
 	faultCorrupt               // the call returns a blob with one byte flipped (integrity check must catch it)
 	faultTruncated             // the call returns a blob that is one byte short
 	faultNotFound              // the call fails with NOT_FOUND
+	// The storage medium lost the tail of the object and the backend does
+	// not validate (buffer.NewValidatedBufferFromReaderAt, as handed out
+	// by local file / block device backed storage): ReadAt comes up short
+	// with io.EOF instead of an integrity error. Only used for file blobs.
+	faultShortObject
 )
 
 var faultKindNames = map[faultKind]string{
@@ -55,7 +60,14 @@ var faultKindNames = map[faultKind]string{
 	faultCorrupt:     "corrupt",
 	faultTruncated:   "truncated",
 	faultNotFound:    "notfound",
+	faultShortObject: "short_object_unvalidated",
 }
+
+// mediumReader is the backing medium of an object served without
+// validation.
+type mediumReader struct{ *bytes.Reader }
+
+func (mediumReader) Close() error { return nil }
 
 // fakeCAS is an in-memory blobstore.BlobAccess. Blobs are stored under the
 // digest key the test chose (which need not match the content: that is how
@@ -75,10 +87,22 @@ type fakeCAS struct {
 	integrityFailures int
 	// Every Put ever attempted (key, data).
 	puts []string
+
+	// Keys of file blobs (as opposed to Directory / Tree messages).
+	fileKeys map[string]bool
+	// Persistent variant of faultShortObject: key -> bytes lost from the
+	// tail of the object.
+	shortBy map[string]int
+	// The most recent fault that fired was a short, unvalidated object
+	// (a read inside the surviving prefix legitimately succeeds).
+	lastFiredShort bool
+	// Called at the start of every Get, before any lock is taken (may
+	// block: used to park downloads).
+	getHook func(key string)
 }
 
 func newFakeCAS() *fakeCAS {
-	return &fakeCAS{blobs: map[string][]byte{}, faults: map[int]faultKind{}}
+	return &fakeCAS{blobs: map[string][]byte{}, faults: map[int]faultKind{}, fileKeys: map[string]bool{}, shortBy: map[string]int{}}
 }
 
 func (c *fakeCAS) store(data []byte) digest.Digest {
@@ -149,17 +173,24 @@ func (c *fakeCAS) GetCapabilities(ctx context.Context, instanceName digest.Insta
 }
 
 func (c *fakeCAS) Get(ctx context.Context, d digest.Digest) buffer.Buffer {
+	key := casKey(d)
+	if c.getHook != nil {
+		c.getHook(key)
+	}
 	c.mu.Lock()
 	defer c.mu.Unlock()
 	idx := len(c.calls)
-	key := casKey(d)
 	c.calls = append(c.calls, key)
 	if err := ctx.Err(); err != nil {
 		return buffer.NewBufferFromError(status.Error(codes.Canceled, err.Error()))
 	}
 	fault := c.faults[idx]
+	if fault == faultShortObject && !c.fileKeys[key] {
+		fault = faultTruncated // Directory messages are always parsed as a whole
+	}
 	if fault != faultNone {
 		c.fired++
+		c.lastFiredShort = fault == faultShortObject
 	}
 	switch fault {
 	case faultUnavailable:
@@ -174,6 +205,19 @@ func (c *fakeCAS) Get(ctx context.Context, d digest.Digest) buffer.Buffer {
 		return buffer.NewBufferFromError(status.Errorf(codes.NotFound, "blob %s not found", key))
 	}
 	data = append([]byte(nil), data...)
+	if lost := c.shortBy[key]; (lost > 0 || fault == faultShortObject) && len(data) > 0 {
+		if fault != faultNone && fault != faultShortObject {
+			// A one-shot fault on top of the persistent one.
+			return buffer.NewBufferFromError(status.Errorf(codes.Internal, "injected storage fault at call %d", idx))
+		}
+		if fault == faultShortObject {
+			lost = len(data) - len(data)/2
+		}
+		if lost > len(data) {
+			lost = len(data)
+		}
+		return buffer.NewValidatedBufferFromReaderAt(mediumReader{bytes.NewReader(data[:len(data)-lost])}, d.GetSizeBytes())
+	}
 	switch fault {
 	case faultCorrupt:
 		if len(data) == 0 {
